@@ -1,13 +1,13 @@
 import DarkluaModel.Shared.AstSexp
 import DarkluaModel.C07.Model
 import DarkluaModel.C07.Cover
+import DarkluaModel.Rules.EvaluatorFloat
 /-!
 Line-protocol handlers for properties C06 and C07 (the Luau-lowering rules).
 
 * `c06.rules` → the modelled rule names
-* `c06.rule <rule-name x-hex> <block> [(<expr>*)]` → the transformed block. The optional third
-  argument lists the expressions `e` for which the REAL `Evaluator::evaluate(e).is_truthy()` is
-  `Some(true)` (only `remove_if_expression` looks at it; see `Rules/RemoveIfExpression.lean`).
+* `c06.rule <rule-name x-hex> <block>` → the transformed block (`remove_if_expression` consults the
+  Lean model of the static evaluator, `Rules/Evaluator.lean`; an optional third argument is ignored).
 * `c06.all <block> [(<expr>*)]` → all nine rules in the order of `C07.lowerAll`
 * `c06.census <name> <block>` → the feature census (`<name>` = a rule name, or `luau` for all)
 * `c06.wf <block>` → `true`/`false`: the tree is one darklua's AST can express
@@ -21,8 +21,10 @@ def ruleNames : List String :=
   ["remove_compound_assignment", "remove_continue", "remove_if_expression", "remove_interpolated_string",
    "remove_floor_division", "convert_luau_number", "make_assignment_local", "remove_types", "remove_attribute"]
 
-/-- membership in the list of truthy expressions, by printed form -/
-def truthyOf (table : List String) (e : Expr) : Bool := table.contains e.toSexp.toString
+/-- `Evaluator::evaluate(e).is_truthy().unwrap_or_default()`, computed by the Lean model of the static
+evaluator (property C08: `Rules/Evaluator.lean`, executable instance over IEEE doubles) -/
+def truthyOf (_table : List String) (e : Expr) : Bool :=
+  (Evaluator.evaluate Evaluator.floatEvalOps e).isTruthy == some true
 
 def applyRule (name : String) (truthy : Expr → Bool) (b : Block) : Option Block :=
   match name with
